@@ -368,5 +368,52 @@ func (s *confswarm) OnInvoke(w *World, dg *DG, inv *Invocation) {
 func (s *confswarm) OnReply(w *World, dg *DG, r *Reply) {
 	if r.ParseErr != nil {
 		w.Violate("C19", "reply-unparseable-on-wire", "configuration `%s %s` was accepted at start-up, but the reply to dg%d does not parse: %v", s.plugin, strings.Join(s.args, " "), dg.ID, r.ParseErr)
+		return
 	}
+	s.honoured4(w, dg, r)
+}
+
+// honoured4: "arguments that cannot be honoured on the wire are rejected at start-up". For the DHCPv4 plugins whose
+// arguments are plain addresses, when the reply carries the plugin's option, the option must be the encoding of the
+// accepted arguments, computed here independently (every argument an IPv4 address, 4 bytes each). An accepted
+// argument with no such encoding, or an option that says something else than the arguments, is a violation.
+func (s *confswarm) honoured4(w *World, dg *DG, r *Reply) {
+	if s.v6 || r.Msg4 == nil || len(s.args) == 0 {
+		return
+	}
+	var code uint8
+	switch s.plugin {
+	case "router":
+		code = 3
+	case "dns":
+		code = 6
+	case "netmask":
+		code = 1
+	default:
+		return
+	}
+	ran := false
+	for _, inv := range dg.Invs {
+		if inv.Plugin == s.plugin && !inv.RespNil {
+			ran = true
+		}
+	}
+	got, has := r.Msg4.Options[code]
+	if !ran || !has {
+		return
+	}
+	var want []byte
+	for _, a := range strings.Fields(strings.Join(s.args, " ")) { // the arguments as the configuration file delivers them
+		ip := net.ParseIP(a).To4()
+		if ip == nil {
+			w.Violate("C19", "accepted-argument-not-on-the-wire/"+s.plugin, "configuration `%s %s` was accepted at start-up, but %q is not an IPv4 address and cannot be carried in option %d (the reply to dg%d has % x there)", s.plugin, strings.Join(s.args, " "), a, code, dg.ID, got)
+			return
+		}
+		want = append(want, ip...)
+	}
+	if string(got) != string(want) {
+		w.Violate("C19", "accepted-argument-not-on-the-wire/"+s.plugin, "configuration `%s %s` was accepted at start-up; option %d of the reply to dg%d is % x, the arguments encode to % x", s.plugin, strings.Join(s.args, " "), code, dg.ID, got, want)
+		return
+	}
+	w.Probe("confswarm.arguments_on_the_wire")
 }
